@@ -49,14 +49,20 @@ CHECKS = [
         "groups; ceilings are boot_noise_ceiling of the same resample; variances = np.cov over the isfinite-masked rows (with ceiling rows); "
         "dof = resampled descriptor groups - 1 (min of both); crossval row f = compare(prediction fitted by fitter_j on train_f ONLY with "
         "method/pattern_idx/pattern_descriptor, subsampled to test_f, test_f data), NaN row for unusable folds, (1, models, folds) layout; "
-        "eval_fixed rows, cov(ddof=0)/n_rdm, dof n_rdm-1; all Result fields. Bootstrap-wrapped cross-validation (bootstrap_crossval, "
-        "dual bootstrap) and crossval with fitter=None / ceil_set=None+noise ceiling are decided by the bounded tier only.",
+        "eval_fixed rows, cov(ddof=0)/n_rdm, dof n_rdm-1; all Result fields. Bootstrap-wrapped cross-validation is under contract too "
+        "(nested symbolic loops over draws and repetitions, havoc fold generators): _internal_cv evaluates exactly the folds of "
+        "sets_k_fold(sample, caller's descriptors / fold counts, random=True) with indices expanded to the bootstrap multiplicities, the "
+        "ceiling of those folds (leave-one-GROUP-out with the caller's rdm_descriptor when nothing is cross-validated), caller's method / "
+        "fitter / pattern_descriptor; bootstrap_crossval, eval_dual_bootstrap (three cross-validations per draw and repetition) and "
+        "eval_dual_bootstrap_random store, per draw with enough distinct groups, exactly that result and its ceiling (NaN otherwise), dof / "
+        "cv_method by boot_type. The n_cv variance projection, crossval with fitter=None and reproducibility across processes are "
+        "decided by the bounded tier only.",
         "compare, predict_rdm, subsample_pattern, boot/cv_noise_ceiling, np.cov/mean/isfinite are uninterpreted pure functions (their own "
         "contracts are C03/C07/C08/C09); Result.__init__ is a record constructor; samplers are havoc (C09); reals for floats.",
         "contract-based deductive verification: ast->z3 on the real source, EUF term equality with havoc RNG and Skolemised loop summaries",
         "DESIGN.md C04"),
     chk('C01', 'other',
-        'Engine A proves for all inputs the option/noise plumbing of calc_rdm: in the list branch RDM i is calc_rdm(dataset[i]) with EVERY option forwarded (noise, noise[i]), combined by from_partials/concat; single-dataset dispatch passes each method its options; alphabetical re-sort exactly when a descriptor is given; unknown methods raise. Engine B runs the real calc_rdm on sympy object arrays and proves the euclidean / correlation / mahalanobis (symbolic precision LL^T) / poisson (symbolic prior) formulas on condition means for all real data at small designs incl. unbalanced ones, int and str labels, remove_mean. Movies, invariances, multi-step sequences, descriptors: bounded oracle tier.',
+        'Engine A proves for all inputs the option/noise plumbing of calc_rdm and calc_rdm_movie (list branch: movie i with EVERY option forwarded; single dataset: frame t = calc_rdm / calc_rdm_unbalanced of time part t of the optionally binned data with every estimator option forwarded, frames stacked by concat and labelled with the time values and the method): in the list branch RDM i is calc_rdm(dataset[i]) with EVERY option forwarded (noise, noise[i]), combined by from_partials/concat; single-dataset dispatch passes each method its options; alphabetical re-sort exactly when a descriptor is given; unknown methods raise. Engine B runs the real calc_rdm on sympy object arrays and proves the euclidean / correlation / mahalanobis (symbolic precision LL^T) / poisson (symbolic prior) formulas on condition means for all real data at small designs incl. unbalanced ones, int and str labels, remove_mean. Movie values, invariances, multi-step sequences, descriptors: bounded oracle tier.',
         'estimators, _build_rdms, from_partials, concat, sort_by are uninterpreted in A (own contracts under C10/bounded tier); B: numpy proxy overrides listed in evidence; shapes bounded (stated)',
         'contract-based deductive verification: sidecar contracts on the real functions, ast->z3 VC generation on the real source (re-read every run), external z3 portfolio + symbolic execution of the real functions on sympy arrays (engine B) + bounded run-time oracles',
         'DESIGN.md C01'),
@@ -96,7 +102,7 @@ CHECKS = [
         'contract-based deductive verification: ast->z3 VC generation on the real selection helpers and RDMs.subset (filter summaries of conditional loops), z3 lemma layer, + model-based bounded histories',
         'DESIGN.md C10'),
     chk('C11', 'other',
-        'Engine A proves for all inputs that Dataset/TemporalDataset.sort_by gather the measurement rows and every obs descriptor by ONE stable argsort of the key and leave the other descriptors alone, that subset_obs / subset_channel select measurements and the matching descriptors by ONE descriptor selection and pass the rest through, and that split_obs / split_channel (both classes) and split_time return one part per distinct value, part p holding exactly the items whose value is the p-th distinct value, each once, in original order (so the parts PARTITION the split axis), measurements and the split descriptors gathered by that one selection, everything else passed through. Merges, binning, conversions, DataFrame round trip, histories against an abstract view with ghost ids: bounded oracle tier.',
+        'Engine A proves for all inputs that Dataset/TemporalDataset.sort_by gather the measurement rows and every obs descriptor by ONE stable argsort of the key and leave the other descriptors alone, that subset_obs / subset_channel select measurements and the matching descriptors by ONE descriptor selection and pass the rest through, and that split_obs / split_channel (both classes) and split_time return one part per distinct value, part p holding exactly the items whose value is the p-th distinct value, each once, in original order (so the parts PARTITION the split axis), measurements and the split descriptors gathered by that one selection, everything else passed through; bin_time: slice t is the mean over exactly the time points whose value is a member of bins[t]. Merges, conversions, DataFrame round trip, histories against an abstract view with ghost ids: bounded oracle tier.',
         'num_index / subset_descriptor uninterpreted at these call sites (their bodies are under contract in C10); argsort(kind=stable) assumed; get_unique_inverse / get_unique_unsorted modelled as (distinct values in order of first appearance, position of each value) -- bounded oracle K8; all findings repaired',
         'contract-based deductive verification: sidecar contracts on the real functions, ast->z3 VC generation on the real source (re-read every run), external z3 portfolio + model-based bounded histories',
         'DESIGN.md C11'),
